@@ -587,6 +587,25 @@ def run_c09(ctx):
             cfg = gen.random_cfg(rng)
             pairs.append((ctx.case("lone-cr-lf", t2, cfg[:6] + (0,)), ctx.case("lone-cr-crlf", t2, cfg[:6] + (1,)), {"what": "config", "vm": False}))
 
+    # eligible multi-line literals are REWRITTEN (terminators included), so clause 3 applies to them: the same text with
+    # CRLF and with LF line breaks, at widths next to the lengths of its lines, literal first on its line or not (F32)
+    for _ in range(ctx.n(200, 3000)):
+        lind = "  " * rng.randrange(0, 4)
+        lit = "'''\n" + lind + rng.choice(["abcdef", "a", "some longer text here"]) + "\n" + lind + "'''"
+        tail = rng.choice([".Foo(%s, %s)", ".Format(%s)", " + %s + %s", "", ".A.B(%s)"])
+        tail = tail.replace("%s", "%s") % tuple("x" * rng.randrange(3, 14) for _ in range(tail.count("%s")))
+        stmt = rng.choice(["%s%s;", "A := %s%s;", "Run(%s%s, 1);", "Result :=\n    %s%s;"]) % (lit, tail)
+        text = "procedure Foo;\nbegin\n  " + stmt + "\nend;\n"
+        L = max(len(l) for l in text.split("\n"))
+        cfg = gen.random_cfg(rng)
+        for w in rng.sample(range(max(10, L - 12), L + 6), 3):
+            c = (w,) + tuple(cfg[1:2]) + (1,) + tuple(cfg[3:6]) + (0,)
+            pairs.append((ctx.case("mlit-inlf", text, c), ctx.case("mlit-incrlf", gen.to_crlf(text), c), {"what": "input"}))
+    from . import findings as _f9
+    for fid, text, cfg, cursors, w in _f9.witness_inputs("C09"):
+        if "\r\n" in text:
+            pairs.append((ctx.case("witness-" + fid + "-lf", text.replace("\r\n", "\n"), tuple(cfg)), ctx.case("witness-" + fid, text, tuple(cfg)), {"what": "input"}))
+
     def compare(ra, rb, meta):
         if meta["what"] == "config":
             ctx.count("lf_vs_crlf_config")
@@ -1278,6 +1297,17 @@ def run_c02(ctx):
     # tokens decided twice (reflow after a multi-line literal, statements in two conditional-compilation lines) at
     # boundary widths: a token that moves back onto the previous line must get its separating space back
     cases += boundary_width_cases(ctx, twice_decided_texts(ctx, ctx.n(120, 2000), ctx.n(250, 4000)), "twice-decided", input_lines=True)
+    cases += witness_cases(ctx, "C02")
+    # portability directives in every declaration shape, separated from a literal by a line break, with and without
+    # trailing comments (F31): the directive must be typed as a keyword or it is glued to the literal
+    for _ in range(ctx.n(150, 2000)):
+        d = rng.choice(["deprecated", "experimental", "platform", "library", "deprecated 'use X'", "platform deprecated"])
+        val = rng.choice(["1", "$FF", "'s'", "1.5", "#13", "Foo", "[1, 2]", "(A: 1; B: 2)", "nil"])
+        sep = rng.choice([" ", "\n", "\n  ", "  "])
+        trail = rng.choice(["", " // c", " {x}", " {x} // c", " (* y *)", "\n// own line"])
+        shape = rng.choice(["const\n  C = %s%s%s;%s\n", "const\n  C: Integer = %s%s%s;%s\n  D = 2;\n", "var\n  V: Integer = %s%s%s;%s\n",
+                            "type\n  TRec = record\n    F: Integer;\n  end;\nconst\n  K = %s%s%s;%s\n"])
+        cases.append(ctx.case("portability", shape % (val, sep, d, trail), gen.random_cfg(rng)))
     ctx.run_stream(cases, units=["spacing", "generics", "invariants", "relex", "lex", "comment", "lower", "recon"])
     ctx.hypotheses["plan_ok: break after line comments / unterminated literals, inline comments never broken off"] = "re-scan oracle on every case (comment kinds are part of the compared token kinds)"
     ctx.hypotheses["lex_one_local (each sub-lexer depends on its own bytes plus a follow set)"] = "re-scan with the verified model lexer and with the real lexer on every case"
